@@ -13,11 +13,12 @@ before / after.  Coordinates live in any linear order `α`.
 
 What is *not* here: the node-table copy (`_reorder_nodes`: column[order]), metadata, `tables.sort()`,
 `compute_mutation_parents` are tskit/numpy by contract and checked on the implementation by the
-oracle of harness/props/c29.py; "genotypes unchanged" follows from `tree_iso` +
-`mutation_moves_to_present_piece` by tskit's decoding contract and is checked by the oracle.
+oracle of harness/props/c29.py; "genotypes unchanged" is proved as `genotype_carriers_preserved` (the
+set of samples below each mutation is unchanged); that tskit decodes alleles from these sets is its
+contract, and the decoded genotypes are compared by the oracle.
 -/
 import Mathlib.Tactic.IntervalCases
-import TsdateVerif.Proofs.SplitMut
+import TsdateVerif.Proofs.SplitGeno
 
 namespace Tsdate.C29
 open Tsdate Tsdate.Split
@@ -190,6 +191,28 @@ theorem mutation_moves_to_present_piece (hv : Valid N es ord) (insIdx : List Nat
   intro e r he hold hc
   rw [← hold]
   exact assign_present excl hv insIdx hvi x e he r hc
+
+/-- **Ancestry inside every local tree is preserved.**  `Below es x a b` = in the tree at `x`, `a` is
+`b` or a descendant of `b`.  For input nodes `a`, `b` that are in the tree at `x`, with `va`, `vb` the
+output nodes they have there (`Piece`): `a` is below `b` iff `va` is below `vb` in the output tree. -/
+theorem ancestry_preserved (hv : Valid N es ord) (x : α) (a b va vb : Nat)
+    (ha : Piece excl N es ord x a va) (hb : Piece excl N es ord x b vb) :
+    Below es x a b ↔ Below (outEdges es (splitDisjoint N excl es ord)) x va vb :=
+  below_iff excl hv ha hb
+
+/-- **Genotypes: the samples below a mutation are unchanged.**  For every sample `s`, every mutation
+(position `x`, node `u`) and the node `v` the sweep moves it to — whether or not `s` or `u` is in the
+tree at `x` (isolated samples, mutations above absent nodes, sites outside all edges included) — `s`
+is at or below `u` in the input tree at `x` iff `s` is at or below `v` in the output tree at `x`.
+(tskit decodes a sample's allele from exactly these carrier sets and the order of the mutation
+rows.) -/
+theorem genotype_carriers_preserved (hv : Valid N es ord) (insIdx : List Nat) (hvi : Valid N es insIdx)
+    (x : α) (s u : Nat) (hs : s < N) (hu : u < N) (hsx : aget excl s = true) :
+    Below es x s u ↔
+      Below (outEdges es (splitDisjoint N excl es ord)) x s
+        (assign (mapUpTo (splitDisjoint N excl es ord).order.toArray
+          (insEvs es (splitDisjoint N excl es ord) insIdx) x) u) :=
+  carriers_preserved excl hv insIdx hvi x s u hs hu hsx
 
 /-! ### Non-vacuity: a node in two pieces
 
